@@ -20,6 +20,41 @@ CHECKS = {
         "Every generated fit (class x solver x spectrum x shape x scale 1e-8..1e8 x flags) is compared with an independent eigen-decomposition of the independently preprocessed input; exact-solver paths at 1e-9, randomised paths two-sided at 1e-6 where the method promises accuracy and one-sided (interlacing, Eckart-Young) always.",
         "5/C01",
     ),
+    "C02": (
+        "conservation monitor (icontract post-condition on Preprocessor.fit_transform decoding unique cell ids) + round-trip oracle by label over an enumerated (pairwise / 3-wise covering) layout space",
+        "Every cell of the input carries a unique id encoding its label tuple; the stacked 2-D matrix must contain each non-missing cell exactly once with one sample label per row and one feature label per column, inverse_transform_data(fit_transform(X)) must return X at every label with the same container/variables/dimension sets/label sets, transform() must rebuild the same matrix, and an EOF fit on the layout must return components/scores/reconstructions with the stated dimensions.",
+        "5/C02",
+    ),
+    "C03": (
+        "reference-model monitor (the user's own input is the oracle for full-mode reconstruction) + relation monitors (transform(inverse_transform(s)) == s, normalized switches differ by the norms)",
+        "For EOF/ComplexEOF/HilbertEOF and the real/complex/Hilbert CPCCA family over all preprocessing flags, alpha, PCA, containers: full-mode inverse_transform(scores()) equals the input in physical units; random score arrays round-trip; normalized switches differ exactly by the per-mode norms.",
+        "5/C03",
+    ),
+    "C04": (
+        "relation monitor between two executions on one object: transform(training data) vs scores(), rows matched by label",
+        "Every transform-capable class x configuration cell (alpha grid, PCA, rotation power 1-3, normalized, containers, fully missing samples/features) is fitted and transform(X_fit) is compared with scores(): values, dims, sample labels, mode order and sign.",
+        "5/C04",
+    ),
+    "C05": (
+        "relation monitors on out-of-sample transforms: labels taken from the new data, additivity under concatenation (all split points for n<=8), subset consistency with scores()",
+        "Per fitted model and new data set (1..N samples, disjoint/overlapping/equal/repeated coordinates, several sample dims, sample MultiIndex): result labelled by the new data, no spurious NaN, transform(concat(A,B)) == concat(transform(A), transform(B)), transform(X_fit[idx]) == scores()[idx].",
+        "5/C05",
+    ),
+    "C06": (
+        "reference-model monitor (reduced-fit oracle in numpy + xeofs fit on the physically reduced object) + refusal monitor + icontract post-condition on Sanitizer.transform + FP-error recorder",
+        "All fully-missing masks of a 6x4 input (thorough: exhaustive for that sub-space) plus sampled masks on grids/Datasets/lists/cross-set/rotated models: the fit equals the reduced fit, NaN reappears at exactly the deleted labels, isolated NaNs and mismatching masks are refused, no result contains values derived from NaN.",
+        "5/C06",
+    ),
+    "C07": (
+        "relation monitor between a base fit and a fit of a re-laid-out copy (transpose, feature/sample permutation, variable/list partition, dimension names), compared by label",
+        "Every class x transformation cell: singular values, components at each label and scores must be unchanged (scores permuted with the samples); real decompositions without any alignment, complex ones modulo one phase per mode.",
+        "5/C07",
+    ),
+    "C08": (
+        "relation monitor between a fit and a fit of an independently transformed copy (shift, affine rescaling, pre-multiplied weights, coslat vs explicit weights, global factor) + trace of the options Scaler.fit actually received",
+        "Each relation is asserted for single- and cross-set models over containers and weight forms with tolerances from an explicit error model; shifts/scalings span 1e-6..1e6.",
+        "5/C08",
+    ),
     "C09": (
         "reference-model monitor: independent fractionally whitened cross-covariance (eigh powers, 1/(N-1)) + QR/SVD canonical correlations + Pearson oracle for every reported correlation/pattern",
         "Every generated cross-set fit (MCA/CCA/RDA/CPCCA x real/Complex/Hilbert x alpha in [0,1]^2 x PCA on/off x n_modes) is compared with the oracle: reported singular values proportional to sigma(K) with the factor (N/(N-1))^((2-ax-ay)/2), score cross-covariance diagonal, MCA orthonormality and SCF, CCA canonical correlations, every correlation within [-1,1] and equal to np.corrcoef.",
@@ -40,6 +75,16 @@ CHECKS = {
         "Every scheduler entry during fit(compute=False, check_nans=False) / rotator.fit(compute=False) is an observed event carrying the innermost xeofs frame (must be zero); results must be dask-backed before and numpy after compute(); the computed model is compared with the numpy fit for every class x chunk layout x scheduler (sync, 1/2/4/16 threads, injected delays); evidence lists the distinct task-completion orders actually observed.",
         "5/C12",
     ),
+    "C13": (
+        "relation monitor: model vs type(model).deserialize(codec(model.serialize())) for the identity, netCDF-attribute and JSON codecs, with/without placeholders, after histories",
+        "Every model class x input structure x parameter-value kind x user-attribute dictionary x codec: equal get_params(), identical components/scores/transform/inverse_transform/predict; exceptions inside codec/deserialize/query are violations with the offending attribute named.",
+        "5/C13",
+    ),
+    "C14": (
+        "history checker against a sequential specification (answers == Q(fresh model fitted on the last fit's arguments)) after every operation of random call sequences + input-immutability monitor (deep snapshot / identical)",
+        "Random histories (quick <= 8, thorough <= 20 ops) over fit/transform/inverse_transform/queries/compute/serialize/rotator.fit/bootstrapper.fit/failing fits on one object for every class; all ordered pairs fit(Da);fit(Db) of a 4-member data pool are enumerated.",
+        "5/C14",
+    ),
     "C15": (
         "reference-model monitor (eigvalsh threshold oracle, principal angles) + back-end trace (which SVD routine ran, which kwargs/seed arrived) + bit-identity relation between seeded runs + icontract post-conditions on Decomposer/_SVD",
         "Threshold count, exact-vs-randomised agreement on gapped spectra, 'auto' selecting only between the two back-ends (trace + bit-identity with one of them), seed reproducibility for numpy/complex/dask, sign convention, and solver_kwargs pass-through for every class advertising them are decided on generated matrices with prescribed spectra.",
@@ -54,6 +99,21 @@ CHECKS = {
         "fault enumeration: single-fault mutations of valid calls, exception-or-return observed at the API boundary",
         "Every (fault, entry point, class, container) combination of the catalogue is executed after the un-mutated call has been shown to work; a mutated call that returns is a violation; negative controls from the property text are executed and never judged.",
         "5/C17",
+    ),
+    "C18": (
+        "reference-model monitor: independent lag-1 feedback matrix A and its eigen-structure (eigen-residual in PC coordinates, conjugate closure, damping/period formulas) + noise-free oscillators with known eigenvalues",
+        "Random red-noise and synthetic damped oscillators x PCA on/off x flags: A p = lambda p, conjugate pairs, damping = -1/log|lambda|, period = 2 pi / arg lambda, ordering by coefficient std, transform(X_fit) == scores(), recovered periods/damping times of noise-free oscillators.",
+        "5/C18",
+    ),
+    "C19": (
+        "reference-model monitor (own lag-sum estimator, generalised symmetric eigenproblem via scipy.linalg.eigh) + icontract post-condition on OPA._Ctau (every lagged covariance the code forms)",
+        "White noise and AR(1) mixtures x tau_max x n_pca_modes x n_modes: uncorrelated equal-norm scores, bi-orthogonality, each reported decorrelation time equals the trapezoidal lag sum of its own series, descending order, first mode beats 200 random combinations and equals the largest generalised eigenvalue.",
+        "5/C19",
+    ),
+    "C20": (
+        "trace monitor M-RES (recording subclass replaces the inner EOF of the bootstrapper: one event per member with the resampled matrix) + per-member eigen oracle + seed relations",
+        "Per fitted EOF model x n_bootstraps 1..50 x seeds: exactly n_bootstraps resamples drawn with replacement from the model's own rows, member variances/components are those of the resample's EOF, scores are projections of the original samples, orientation non-negative, same seed reproduces, structure and member dimension preserved for every container and dimension naming.",
+        "5/C20",
     ),
 }
 
